@@ -416,6 +416,9 @@ func tableReplay(tr *tracer.T, line []byte, n int, reads int) {
 // unary range reads and streamed range reads against the same real FSM (C02 atomic visibility,
 // C09 point-in-time view).  Readers record s = updates completed at invocation and
 // e = updates started at return; events are emitted after the section, updates first.
+// concGiant: the next behaviour of tableConc contains the giant transaction (set by the behaviour loop for every third one)
+var concGiant bool
+
 func tableConc(tr *tracer.T, rng *rand.Rand, nUpd int) {
 	tr.Emit(map[string]any{"ev": "reset"})
 	r := newRep(1, fsm.RecoveryTypeSnapshot)
@@ -435,7 +438,8 @@ func tableConc(tr *tracer.T, rng *rand.Rand, nUpd int) {
 	var revs []map[string]any
 	// one behaviour in three contains a GIANT transaction (11 pairs of 1.9 MiB = 21 MiB in one log entry): readers
 	// then also ask for the keys of its pairs
-	giant := rng.Intn(3) == 0
+	giant := concGiant
+	concGiant = false
 	stop := make(chan struct{})
 	var wg sync.WaitGroup
 	readOp := func(k []byte) m.Op { return m.Op{T: "range", K: k} }
@@ -863,6 +867,7 @@ func init() {
 				lg, p := randomLog(rng, *ops, class)
 				tableConverge(tr, rng, lg, p)
 			case "conc":
+				concGiant = b%3 == 1
 				tableConc(tr, rng, *ops)
 			case "snapconc":
 				tableSnapConc(tr, rng, *ops)
